@@ -359,3 +359,52 @@ pub fn c11(a: &Args) {
     }
     println!("{}", json!({"events": out.finish()}));
 }
+
+// ------------------------------------------------------------------ C12
+
+pub fn c12(a: &Args) {
+    let mut out = Out::create(a.req("out"));
+    let mut rng = Rng::new(a.num("seed", 1));
+    let corpus = read_corpus(a.req("corpus"));
+    // paragraphs: corpus sentences without double quotes, made to end in a terminator
+    let paras: Vec<String> = corpus.iter().filter(|s| !s.contains(['"', '“', '”']) && !s.contains('\n') && s.chars().count() > 8).map(|s| {
+        let t = s.trim_end();
+        if t.ends_with(['.', '!', '?']) { t.to_string() } else { format!("{t}.") }
+    }).collect();
+    let extra_d = ["You have 5.", "4 of them.", "...and so on", "e.g. this", "i.e.", "'s", "st", "nd place", "1st", ". ", "- list",
+        "A.", "\"quoted\" text", "etc.", "et al.", "s", "'", ")", "the", "a", "an", "$5", "%", "@home", "😀", "é", "0x1F", "1980s were", "2nd. 3."];
+    let n = a.num("pairs", 1000) as usize;
+    let mut jobs: Vec<(String, String)> = Vec::new();
+    for i in 0..n {
+        let mut p = rng.pick(&paras[..]).clone();
+        if rng.chance(1, 5) { p = format!("{} {}", p, rng.pick(&paras[..])); }
+        if rng.chance(1, 8) { p = format!("{} {}", rng.pick(crate::inputs::MULTIBYTE_FILL), p); }
+        // sentence-final tokens that interact with condensing: number, initialism, abbreviation
+        match rng.below(12) { 0 => p = format!("{} I have 4.", p), 1 => p = format!("{} See plan A.", p), 2 => p = format!("{} It was e.g.", p), 3 => p = format!("{} It is the 2nd.", p), _ => {} }
+        p.push_str(if rng.chance(1, 6) { "\n\n\n" } else { "\n\n" });
+        let d = match i % 6 {
+            0 => rng.pick(&corpus[..]).clone(),
+            1 => crate::inputs::compose(&corpus, &mut rng),
+            2 => { let t = rng.pick(&corpus[..]); let cs: Vec<char> = t.chars().collect(); cs[..rng.range(0, cs.len())].iter().collect() }
+            3 => extra_d[rng.below(extra_d.len())].to_string(),
+            4 => format!("{} {}", extra_d[rng.below(extra_d.len())], rng.pick(&corpus[..])),
+            _ => rng.pick(&paras[..]).clone(),
+        };
+        if d.starts_with('\n') { continue; }
+        jobs.push((p, d));
+    }
+    let evs = par_map(jobs.len(), a.num("threads", 12) as usize, |_| front::all_rules_group(Dialect::American), |lg, i| {
+        let (p, d) = &jobs[i];
+        let shift = p.chars().count();
+        let pd = format!("{p}{d}");
+        let mut run = |t: &str, by: usize| -> Result<Vec<String>, String> {
+            catch(|| lg.lint(&make_doc(t, "plain")).into_iter().map(|mut l| { l.span.start += by; l.span.end += by; lint_digest(&l) }).collect())
+        };
+        match (run(p, 0), run(d, shift), run(&pd, 0)) {
+            (Ok(lp), Ok(ld), Ok(lpd)) => json!({"ev": "Pair", "p": p, "d": d, "lenP": shift, "lp": lp, "ld": ld, "lpd": lpd}),
+            _ => json!({"ev": "PairPanic", "p": p, "d": d}),
+        }
+    });
+    for e in evs { out.emit(&e); }
+    println!("{}", json!({"events": out.finish()}));
+}
